@@ -12,7 +12,7 @@ Pipeline of a check (see DESIGN.md section 6):
 import atexit, json, os, re, shutil, signal, subprocess, sys, time, glob, hashlib
 
 ROOT = os.path.dirname(os.path.dirname(os.path.abspath(__file__)))
-REPO = os.environ.get("VERIF_REPO", "/repo")
+REPO = os.environ.get("VERIF_REPO") or "/repo"
 SPEC = os.path.join(ROOT, "spec")
 HARNESS = os.path.join(ROOT, "harness")
 WORKROOT = os.path.join(ROOT, ".work")
